@@ -266,11 +266,11 @@ def random_history(rnd: random.Random, prop: str, length: int) -> tuple[dict, li
                 it = rnd.choice([0, 1, 2, 3, 6, 9, 11, 12, 14, 21, 22, 32, 18, 16, 5, maxint, maxint + 1, wake_t, -1, -15])
             pl = p
             if it == 0:
-                pl = rnd.choice(["57", "0", "100", "7.6", "99.4", "12"] + (["abc", "", "150", "-3", "nan", "level " * 40] if prop == "C03" else []))
+                pl = rnd.choice(["57", "0", "100", "7.6", "99.4", "12"] + (["abc", "", "150", "-3", "nan", ("level " * 40).strip()] if prop == "C03" else []))
             elif it == 22:
-                pl = rnd.choice(["1", "1111", "0", "300000"] + (["x", "", "beat " * 50] if prop in ("C03", "C04") else []))
+                pl = rnd.choice(["1", "1111", "0", "300000"] + (["x", "", ("beat " * 50).strip()] if prop in ("C03", "C04") else []))
             elif it == 2:
-                pl = rnd.choice(VERSIONS + (["garbage", "", "no version " * 30] if prop in ("C03", "C05") else []))
+                pl = rnd.choice(VERSIONS + (["garbage", "", ("no version " * 30).strip()] if prop in ("C03", "C05") else []))
             nn = 0 if it in (2, 9, 14) else (255 if it == 3 and rnd.random() < 0.7 else n)
             cc = rnd.choice([255, 255, 5]) if it == 3 else 255
             ev = dict(k="recv", n=nn, c=cc, cmd=3, ack=0, t=it, p=pl)
